@@ -476,13 +476,15 @@ Theorem features_agree disk cfg st files cur m :
   unique_match (doc_lua m) files -> unique_match (doc_init m) files ->
   let out := check_refer disk cfg st cur KRequire m in
   let oo := open_outcomes st (fun f => fmem f files) cur (open_list true false m) in
-  map snd oo = r_resolved out /\
-  (forall it c, In (it, c) oo -> path_suffix it c = true /\ (it = doc_lua m \/ it = doc_init m)).
+  (r_resolved out = [] /\ oo = [None]) \/
+  (exists it c, r_resolved out = [c] /\ oo = [Some (it, c)] /\ path_suffix it c = true /\
+                (it = doc_lua m \/ it = doc_init m)).
 Proof.
   intros Hok Hsimple He Hpre Hm Hi1 Hi2 Hso Hu1 Hu2. cbv zeta.
   rewrite (open_list_require m Hm). unfold check_refer. rewrite Hpre, Hi1, Hi2, He. simpl andb. cbv iota.
   change (replace_byte dot slash m) with (mod_path m).
   unfold doc_so in Hso. rewrite Hso.
+  unfold doc_lua, doc_init.
   set (mp := mod_path m) in *.
   assert (has_dot mp = false) as Hnd by (apply has_dot_false; apply replace_no_dot).
   destruct Hok as [Hwf His].
@@ -508,15 +510,15 @@ Proof.
     rewrite Es. simpl. rewrite Ea.
     destruct (best_set_unique st files cur (mp ++ init_tail) (path_suffix (mp ++ init_tail)) Hwf
                 (fun c => cands_name st files _ c Hok (has_dot_init mp)) Hu2) as [[Ei Hni]|[ci [Ei [Hci Hpi]]]].
-    + rewrite Ei. simpl. split; [reflexivity|]. intros it c [].
-    + rewrite Ei. simpl. apply fmem_In in Hci as Hci'. rewrite Hci'. simpl. split; [reflexivity|].
-      intros it c [Heq|[]]. injection Heq as <- <-. split; [exact Hpi|right; reflexivity].
+    + rewrite Ei. simpl. left. split; reflexivity.
+    + rewrite Ei. simpl. apply fmem_In in Hci as Hci'. rewrite Hci'. simpl. right.
+      exists (mp ++ init_tail), ci. repeat split; try reflexivity; [exact Hpi|right; reflexivity].
   - rewrite (Hna cd Hcd) in Hpd. discriminate.
   - rewrite (Hnd1 ca Hca) in Hpa. discriminate.
   - (* name.lua exists: both answer it *)
     assert (ca = cd) as -> by (apply Hu1; assumption).
-    simpl open_outcomes. rewrite Ed, Ea. simpl. apply fmem_In in Hcd as Hcd'. rewrite Hcd'. simpl.
-    split; [reflexivity|]. intros it c [Heq|[]]. injection Heq as <- <-. split; [exact Hpd|left; reflexivity].
+    simpl open_outcomes. rewrite Ed, Ea. simpl. apply fmem_In in Hcd as Hcd'. rewrite Hcd'. simpl. right.
+    exists (mp ++ lua_ext), cd. repeat split; try reflexivity; [exact Hpd|left; reflexivity].
 Qed.
 
 (* ---- the answers follow create/delete events ---- *)
